@@ -23,8 +23,8 @@ UNKNOWN = "pseudo.UnknownException"
 EXTERNAL_RAISES = {
     "builtins.int": ["builtins.ValueError"],
     "builtins.float": ["builtins.ValueError"],
-    "urllib.request.urlopen": ["urllib.error.URLError", "builtins.OSError"],
-    "urllib.parse.urlopen": ["builtins.AttributeError"],
+    "urllib.request.urlopen": ["urllib.error.URLError", "builtins.OSError",
+                               "builtins.ValueError"],
     "urllib.request.urljoin": ["builtins.ValueError"],
     "urllib.parse.urljoin": ["builtins.ValueError"],
     "urllib.parse.urldefrag": ["builtins.ValueError"],
@@ -44,6 +44,14 @@ EXTERNAL_BASES = {
 }
 EXTERNAL_ALIASES = {"urllib.request.URLError": "urllib.error.URLError"}
 
+# Names of attributes / variables through which the repository calls a
+# datatype conversion (confirmed by reading; a call through one of them raises
+# ValueError for a bad value or whatever the datatype itself raises).
+DATATYPE_SLOTS = {
+    "datatype", "keytype", "valuetype", "_conversion", "conversion",
+    "_basic_key", "_identifier", "_convert", "convert", "_dt",
+}
+
 # attribute-call names that are *not* datatype slots (callbacks into
 # application code or stdlib objects); calls through them raise nothing the
 # analysis attributes.  One line of reason each.
@@ -57,16 +65,24 @@ SLOT_EXTRA = {"get_data": ["builtins.OSError"]}
 
 
 class ExcFlow:
+    """Escape sets per *identity* (function qualname, receiver class).  The
+    receiver class specialises `self.m(...)` calls inside inherited methods:
+    BaseLoader.loadURL analysed for a SchemaLoader receiver resolves
+    self.loadResource to SchemaLoader.loadResource only (object sensitivity of
+    depth 1 on self).  Identities are discovered on demand from the roots
+    asked for."""
+
     def __init__(self, program, extra_external=None):
         self.P = program
         self.m = program.model
         self.external = dict(EXTERNAL_RAISES)
         if extra_external:
             self.external.update(extra_external)
-        self.esc = {q: {} for q in self.m.functions}
-        self.handler_log = {}
+        self.tab = {}            # identity -> {key: info}
+        self.handler_log = {}    # identity -> [handler records]
         self._noret = {}
-        self._solve()
+        self.iterations = 0
+        self.skip_call = None    # hook: (fi, call, callee ident) -> bool
 
     # ------------------------------------------------------------ hierarchy
     def bases(self, cls):
@@ -95,48 +111,72 @@ class ExcFlow:
         return b in self.bases(a)
 
     # ---------------------------------------------------------------- solve
-    def _solve(self):
-        fns = list(self.m.functions.values())
-        for it in range(40):
+    def ident(self, fi, rc=None):
+        if rc is None and fi.cls is not None:
+            rc = fi.cls.qualname
+        if fi.cls is None:
+            rc = None
+        return (fi.qualname, rc)
+
+    def _ensure(self, ident):
+        if ident not in self.tab:
+            self.tab[ident] = {}
+            self._dirty = True
+
+    def _solve(self, roots):
+        for r in roots:
+            self._ensure(r)
+        for it in range(60):
+            self._dirty = False
             changed = False
-            for fi in fns:
-                self.handler_log[fi.qualname] = []
-                new = self._function(fi)
-                if set(new) != set(self.esc[fi.qualname]):
+            for ident in list(self.tab):
+                fi = self.m.functions[ident[0]]
+                self.handler_log[ident] = []
+                new = self._function(fi, ident[1])
+                if set(new) != set(self.tab[ident]):
                     changed = True
-                self.esc[fi.qualname] = new
-            if not changed:
-                break
-        else:
-            raise AnalysisError("exception-flow fixpoint did not converge")
-        self.iterations = it + 1
+                elif any(new[k].get("depth", 0) != self.tab[ident][k].get(
+                        "depth", 0) for k in new):
+                    changed = True
+                self.tab[ident] = new
+            self.iterations += 1
+            if not changed and not self._dirty:
+                return
+        raise AnalysisError("exception-flow fixpoint did not converge")
 
-    def escapes(self, fi):
-        return self.esc[fi.qualname]
+    def escapes(self, fi, rc=None):
+        ident = self.ident(fi, rc)
+        if ident not in self.tab:
+            self._solve([ident])
+        return self.tab[ident]
 
-    def classes_escaping(self, fi):
-        return sorted({k[0] for k in self.esc[fi.qualname]})
+    def classes_escaping(self, fi, rc=None):
+        return sorted({k[0] for k in self.escapes(fi, rc)})
 
-    def chain(self, fi, key):
+    def chain(self, fi, key, rc=None):
         """Call chain from fi to the raise site of key."""
         out = []
-        cur = fi
+        ident = self.ident(fi, rc)
         guard = 0
-        while cur is not None and guard < 60:
+        while ident is not None and guard < 60:
             guard += 1
-            info = self.esc[cur.qualname].get(key)
+            info = self.tab.get(ident, {}).get(key)
             if info is None:
                 break
+            name = ident[0] if ident[1] is None or ident[0].startswith(
+                ident[1]) else "%s[self:%s]" % (ident[0],
+                                                ident[1].split(".")[-1])
+            if info.get("patched_here"):
+                out.append("%s: handler sets %s and re-raises"
+                           % (name, ",".join(info["patched_here"])))
             via = info.get("via")
             if via is None:
-                out.append("%s raises %s at %s" % (cur.qualname, key[0],
-                                                   key[1]))
+                out.append("%s raises %s at %s" % (name, key[0], key[1]))
                 break
-            callee, line = via
-            out.append("%s:%s calls %s" % (cur.qualname, line, callee))
-            cur = self.m.functions.get(callee)
-            if cur is None:
-                out.append("%s -> %s at %s" % (callee, key[0], key[1]))
+            callee, line, ckey = via
+            out.append("%s:%s calls %s" % (name, line, callee[0]))
+            ident = callee
+            key = ckey
         return out
 
     # ------------------------------------------------------------- noreturn
@@ -161,18 +201,62 @@ class ExcFlow:
         return self._noret[q]
 
     # ------------------------------------------------------------- function
-    def _function(self, fi):
+    def _function(self, fi, rc):
         self._fi = fi
+        self._rc = rc
+        self._ident = (fi.qualname, rc)
         return self._block(fi.node.body, None)
+
+    def _callee_ident(self, c, call):
+        """Identity of a resolved repository callee, specialising calls on
+        `self` to the receiver class of the current identity."""
+        fi = self._fi
+        fn = c.fn
+        if fn.cls is None:
+            return (fn.qualname, None)
+        f = call.func
+        on_self = (isinstance(f, ast.Attribute)
+                   and isinstance(f.value, ast.Name) and fi.params
+                   and fi.cls is not None and f.value.id == fi.params[0])
+        if self._rc is not None and on_self and c.how == "cha":
+            return "SELF"
+        if c.how == "basecall" and call.args and isinstance(
+                call.args[0], ast.Name) and fi.params \
+                and call.args[0].id == fi.params[0] and self._rc is not None:
+            return (fn.qualname, self._rc)
+        rc = c.recv or fn.cls.qualname
+        return (fn.qualname, rc)
+
+    def _self_targets(self, name):
+        """Methods `self.<name>` can denote for the current receiver class."""
+        m = self.m
+        rc = self._rc
+        out = []
+        meth = m.lookup_method(rc, name)
+        if meth is not None:
+            out.append((meth.qualname, rc))
+        for sub in m.subclasses(rc):
+            if sub == rc:
+                continue
+            sm = m.classes[sub].methods.get(name)
+            if sm is not None:
+                out.append((sm.qualname, sub))
+        return out
 
     def _loc(self, node):
         return "%s:%d" % (self.m.rel(self._fi.module.path),
                           getattr(node, "lineno", 0))
 
+    @staticmethod
+    def _merge(out, new):
+        for k, v in new.items():
+            if k not in out or v.get("depth", 0) < out[k].get("depth", 0):
+                out[k] = v
+
     def _block(self, stmts, cur):
         out = {}
         for st in stmts:
-            out.update(self._stmt(st, cur))
+            self._merge(out, self._stmt(st, cur))
         return out
 
     def _stmt(self, st, cur):
@@ -184,31 +268,39 @@ class ExcFlow:
         if isinstance(st, ast.Raise):
             out = {}
             if st.exc is not None:
-                out.update(self._expr(st.exc))
-            out.update(self._raise(st, cur))
+                self._merge(out, self._expr(st.exc))
+            self._merge(out, self._raise(st, cur))
             return out
         if isinstance(st, (ast.If, ast.While)):
             out = self._expr(st.test)
-            out.update(self._block(st.body, cur))
-            out.update(self._block(st.orelse, cur))
+            self._merge(out, self._block(st.body, cur))
+            self._merge(out, self._block(st.orelse, cur))
             return out
         if isinstance(st, (ast.For, ast.AsyncFor)):
             out = self._expr(st.iter)
-            out.update(self._iter_protocol(st.iter))
-            out.update(self._block(st.body, cur))
-            out.update(self._block(st.orelse, cur))
+            self._merge(out, self._iter_protocol(st.iter))
+            self._merge(out, self._block(st.body, cur))
+            self._merge(out, self._block(st.orelse, cur))
             return out
         if isinstance(st, (ast.With, ast.AsyncWith)):
             out = {}
             for it in st.items:
-                out.update(self._expr(it.context_expr))
-            out.update(self._block(st.body, cur))
+                self._merge(out, self._expr(it.context_expr))
+            self._merge(out, self._block(st.body, cur))
             return out
         out = {}
         for ch in ast.iter_child_nodes(st):
             if isinstance(ch, ast.expr):
-                out.update(self._expr(ch))
+                self._merge(out, self._expr(ch))
         return out
+
+    def _from_callee(self, out, ident, line, amb=False):
+        self._ensure(ident)
+        for k, info in self.tab[ident].items():
+            self._merge(out, {k: {
+                "via": (ident, line, k),
+                "depth": info.get("depth", 0) + 1,
+                "amb": amb or info.get("amb", False)}})
 
     def _iter_protocol(self, e):
         """`for x in obj` calls obj.__iter__ of repository classes."""
@@ -217,68 +309,88 @@ class ExcFlow:
             if tag.startswith("C:"):
                 meth = self.m.lookup_method(tag[2:], "__iter__")
                 if meth is not None:
-                    for k, info in self.esc[meth.qualname].items():
-                        out[k] = {"via": (meth.qualname, e.lineno),
-                                  "amb": info.get("amb", False)}
+                    self._from_callee(out, (meth.qualname, tag[2:]), e.lineno)
         return out
 
     def _expr(self, e):
         out = {}
         for n in walk_shallow(e) if not isinstance(e, ast.Lambda) else ():
             if isinstance(n, ast.Call):
-                out.update(self._call(n))
+                self._merge(out, self._call(n))
         return out
 
     def _call(self, call):
         fi = self._fi
         out = {}
         callees = self.P.resolve_call(fi, call)
+        done_self = False
         for c in callees:
             if c.kind == "repo":
-                for k, info in self.esc[c.fn.qualname].items():
-                    out[k] = {"via": (c.fn.qualname, call.lineno),
-                              "amb": c.ambiguous or info.get("amb", False)}
+                ident = self._callee_ident(c, call)
+                if ident == "SELF":
+                    if not done_self:
+                        done_self = True
+                        for t in self._self_targets(call.func.attr):
+                            self._from_callee(out, t, call.lineno)
+                    continue
+                if self.skip_call is not None and self.skip_call(fi, call,
+                                                                 ident):
+                    continue
+                self._from_callee(out, ident, call.lineno, c.ambiguous)
             elif c.kind == "external":
                 for cls in self.external.get(c.name, ()):
-                    out[(cls, self._loc(call) + " " + c.name)] = {
+                    out[(cls, self._loc(call) + " " + c.name, ())] = {
                         "via": None, "amb": c.ambiguous, "external": c.name}
             elif c.kind == "slot":
-                if c.name in NON_DATATYPE_SLOTS:
+                if c.name not in DATATYPE_SLOTS:
                     for cls in SLOT_EXTRA.get(c.name, ()):
-                        out[(cls, self._loc(call) + " slot " + c.name)] = {
+                        out[(cls, self._loc(call) + " slot " + c.name, ())] = {
                             "via": None, "amb": False, "slot": c.name}
                     continue
                 site = self._loc(call) + " slot " + src(call.func)
-                out[("builtins.ValueError", site)] = {
+                out[("builtins.ValueError", site, ())] = {
                     "via": None, "amb": False, "slot": c.name}
-                out[(PSEUDO_OWN, site)] = {
+                out[(PSEUDO_OWN, site, ())] = {
                     "via": None, "amb": False, "slot": c.name}
         for cb in self.P.callback_targets(fi, call, callees):
-            for k, info in self.esc[cb.qualname].items():
-                out[k] = {"via": (cb.qualname, call.lineno),
-                          "amb": info.get("amb", False)}
+            self._from_callee(out, (cb.qualname, cb.cls.qualname
+                                    if cb.cls else None), call.lineno)
         return out
 
     def _raise(self, st, cur):
         fi = self._fi
         if st.exc is None:
             if cur is None:
-                return {(UNKNOWN, self._loc(st) + " bare raise"): {
+                return {(UNKNOWN, self._loc(st) + " bare raise", ()): {
                     "via": None, "amb": True}}
-            return {k: dict(v, reraised=self._loc(st))
-                    for k, v in cur["items"].items()}
+            return self._reraise(st, cur)
         e = st.exc
         if isinstance(e, ast.Name) and cur is not None \
                 and e.id == cur.get("name"):
-            return {k: dict(v, reraised=self._loc(st))
-                    for k, v in cur["items"].items()}
+            return self._reraise(st, cur)
         classes = self._exc_classes(e)
         site = self._loc(st)
         if not classes:
-            return {(UNKNOWN, site + " " + src(e)[:60]): {"via": None,
-                                                          "amb": True}}
-        return {(c, site): {"via": None, "amb": False, "raise": src(e)[:80]}
+            return {(UNKNOWN, site + " " + src(e)[:60], ()): {"via": None,
+                                                              "amb": True}}
+        return {(c, site, ()): {"via": None, "amb": False,
+                                "raise": src(e)[:80]}
                 for c in classes}
+
+    def _reraise(self, st, cur):
+        """Re-raise of the handler's caught set; attributes the handler body
+        assigns on the exception variable are recorded in the key."""
+        patched = cur.get("patches", ())
+        out = {}
+        for k, v in cur["items"].items():
+            nk = (k[0], k[1], tuple(sorted(set(k[2]) | set(patched))))
+            info = dict(v, reraised=self._loc(st))
+            if patched:
+                info["patched_here"] = tuple(patched)
+                # keep the pre-patch key reachable for chain()
+                info["pre_key"] = k
+            out[nk] = info
+        return out
 
     def _exc_classes(self, e):
         fi = self._fi
@@ -334,15 +446,25 @@ class ExcFlow:
                     caught[k] = v
                 if full:
                     del remaining[k]
-            hctx = {"name": h.name, "items": caught, "classes": hcls}
+            patches = []
+            if h.name:
+                for n in ast.walk(h):
+                    if isinstance(n, ast.Assign):
+                        for t in n.targets:
+                            if isinstance(t, ast.Attribute) and isinstance(
+                                    t.value, ast.Name) \
+                                    and t.value.id == h.name:
+                                patches.append(t.attr)
+            hctx = {"name": h.name, "items": caught, "classes": hcls,
+                    "patches": tuple(sorted(set(patches)))}
             hb = self._block(h.body, hctx)
-            self.handler_log[self._fi.qualname].append({
+            self.handler_log[self._ident].append({
                 "handler": h, "try": st, "classes": hcls, "caught": caught,
                 "out": hb})
-            out.update(hb)
-        out.update(remaining)
-        out.update(self._block(st.orelse, cur))
-        out.update(self._block(st.finalbody, cur))
+            self._merge(out, hb)
+        self._merge(out, remaining)
+        self._merge(out, self._block(st.orelse, cur))
+        self._merge(out, self._block(st.finalbody, cur))
         return out
 
 
